@@ -8,7 +8,8 @@ mkdir -p $S
 cp $M/patch.diff $S/patch.diff; cp $M/demo.py $S/demo.py
 sed -i "s|/tmp/mut/$name/src|/repo/src|g" $S/demo.py
 # confirm in the scratch worktree
-cd $M && git stash -q && /venv/bin/python demo.py > /dev/null 2>&1; clean=$?; git stash pop -q
+cd $M && git checkout -- src && /venv/bin/python demo.py > /dev/null 2>&1; clean=$?
+git apply $S/patch.diff || { echo "patch does not apply to the scratch worktree"; exit 3; }
 /venv/bin/python demo.py > $S/demo.out 2>&1; mutated=$?
 suite=$(/venv/bin/python -m pytest -q -p no:cacheprovider 2>&1 | tail -1)
 echo "demo: unchanged exit=$clean, changed exit=$mutated; suite: $suite"
